@@ -166,17 +166,30 @@ Definition fi_remove_above (i : fint) (th : f64) : option fint :=
     end
   else Some i.
 
-(* mid (262-288) *)
+(* mid (float_interval.rs, `pub fn mid`).  After the repair "float bisection always makes progress": the midpoint rounded
+   to the step grid is used only if it lies more than step/2 away from BOTH bounds (otherwise `x <= mid` or `x >= mid`
+   would be absorbed by the tolerance of try_set_max / try_set_min); else the exact midpoint, clamped into the interval.
+   fi_mid_prefix is the code before the repair (kept for the refutation lemma bisect_stall_prefix_refuted). *)
+Definition fi_rough_mid (i : fint) : f64 :=
+  if fis_inf (imin i) && fis_inf (imax i) then c_zero
+  else if fis_inf (imin i) then fsub (imax i) (of_bits fi_mid_one_bits)
+  else if fis_inf (imax i) then fadd (imin i) (of_bits fi_mid_one_bits)
+  else fadd (imin i) (fdiv (fsub (imax i) (imin i)) (of_bits fi_mid_div_bits)).
+Definition fi_mid_prefix (i : fint) : option f64 :=
+  if fi_is_empty i then Some (imin i)
+  else if fi_is_fixed i then Some (imin i)
+  else fi_round_to_step i (fi_rough_mid i).
+(* the test `mid > min + step/2 && mid < max - step/2` *)
+Definition fi_split_ok (i : fint) (m : f64) : bool :=
+  fgt m (fadd (imin i) (fi_tol i)) && flt m (fsub (imax i) (fi_tol i)).
 Definition fi_mid (i : fint) : option f64 :=
   if fi_is_empty i then Some (imin i)
   else if fi_is_fixed i then Some (imin i)
   else
-    let rough :=
-      if fis_inf (imin i) && fis_inf (imax i) then c_zero
-      else if fis_inf (imin i) then fsub (imax i) (of_bits fi_mid_one_bits)
-      else if fis_inf (imax i) then fadd (imin i) (of_bits fi_mid_one_bits)
-      else fadd (imin i) (fdiv (fsub (imax i) (imin i)) (of_bits fi_mid_div_bits)) in
-    fi_round_to_step i rough.
+    match fi_round_to_step i (fi_rough_mid i) with
+    | None => None
+    | Some m => if fi_split_ok i m then Some m else fclamp (fi_rough_mid i) (imin i) (imax i)
+    end.
 
 (* save_state / restore_state (305-317): step is never restored *)
 Definition fi_save (i : fint) : f64 * f64 := (imin i, imax i).
